@@ -850,6 +850,61 @@ def calibrate(names, jobs):
     return 0
 
 
+def cover_unit(u):
+    """cbmc --cover location on the unit: which source lines of the functions under contract are reachable."""
+    tmp = tempfile.mkdtemp(prefix='verif_cov_%s_' % u['name'])
+    rec = dict(cmds=[])
+    try:
+        gb, why = build_unit(u, tmp, rec)
+        if gb is None:
+            return dict(unit=u['name'], error=why)
+        cmd = [c for c in cbmc_cmd(u, gb) if c not in CBMC_CHECKS and c != '--unwinding-assertions']
+        cmd = cmd[:1] + ['--cover', 'location', '--no-standard-checks'] + cmd[1:]
+        rc, out, err, dt = sh(cmd, timeout=u['timeout'], mem_gb=u['mem_gb'])
+        try:
+            data = json.loads(out)
+        except Exception:
+            return dict(unit=u['name'], error='no cover output (rc=%s)' % rc)
+        goals = None
+        for e in data:
+            if isinstance(e, dict) and 'goals' in e:
+                goals = e['goals']
+        if goals is None:
+            return dict(unit=u['name'], error='no goals')
+        fns = set(f.split('(')[0] for f in u['functions'])
+        tot = {}
+        for g in goals:
+            sl = g.get('sourceLocation') or {}
+            fn = sl.get('function')
+            if fn not in fns:
+                continue
+            t = tot.setdefault(fn, [0, 0, []])
+            t[0] += 1
+            if g.get('status') == 'satisfied':
+                t[1] += 1
+            else:
+                t[2].append(sl.get('line'))
+        return dict(unit=u['name'], functions={f: dict(goals=t[0], covered=t[1], uncovered_lines=sorted(set(x for x in t[2] if x))[:20]) for f, t in tot.items()})
+    finally:
+        shutil.rmtree(tmp, ignore_errors=True)
+
+
+def cover(names, jobs):
+    units = load_units()
+    sel = [u for u in units if u['name'] in names or u['_file'][:-5] in names or (not names and u['tier'] == 'quick')]
+    with ThreadPoolExecutor(max_workers=jobs) as ex:
+        res = list(ex.map(cover_unit, sel))
+    json.dump(res, open(os.path.join(VERIF, 'evidence', 'reachability.json'), 'w'), indent=1)
+    for r in res:
+        if 'error' in r:
+            print('%-34s %s' % (r['unit'], r['error'][:100]))
+            continue
+        for f, d in r['functions'].items():
+            flag = '' if d['covered'] == d['goals'] else '  uncovered lines: %s' % ','.join(map(str, d['uncovered_lines']))
+            print('%-34s %-36s %3d/%3d%s' % (r['unit'], f, d['covered'], d['goals'], flag))
+    return 0
+
+
 def replay(path):
     doc = json.load(open(path))
     units = {u['name']: u for u in load_units()}
@@ -890,7 +945,12 @@ def main():
     k = sub.add_parser('calibrate')
     k.add_argument('names', nargs='*')
     k.add_argument('--jobs', type=int, default=14)
+    cv = sub.add_parser('cover')
+    cv.add_argument('names', nargs='*')
+    cv.add_argument('--jobs', type=int, default=6)
     a = ap.parse_args()
+    if a.cmd == 'cover':
+        sys.exit(cover(a.names, a.jobs))
     if a.cmd == 'calibrate':
         sys.exit(calibrate(a.names, a.jobs))
     if a.cmd == 'check':
